@@ -303,7 +303,7 @@ func (r Int16) SmoothMax(x ConstVector, alpha ConstFloat64, t [2]Scalar) Scalar 
   return r
 }
 func (r Int16) LogSmoothMax(x ConstVector, alpha ConstFloat64, t [3]Scalar) Scalar {
-  r .Reset()
+  r .SetFloat64(math.Inf(-1))
   t[2].SetFloat64(math.Inf(-1))
   for i := 0; i < x.Dim(); i++ {
     t[0].Mul(x.ConstAt(i), alpha)
